@@ -53,8 +53,15 @@ def edits(draw, is_tree):
     if not is_tree:
         kinds = ["modify", "delete", "touch", "ln", "modify"]
     out = []
-    for _ in range(draw(st.sampled_from([2, 1, 3, 4, 0, 5, 6, 3, 2]))):
-        k = draw(st.sampled_from(kinds))
+    lead = []
+    if draw(st.sampled_from([True, False, True])):
+        # most histories open with a modification and an addition/removal (the non-triviality rule)
+        lead = ["modify", draw(st.sampled_from(["delete", "add", "delete"])) if is_tree else "delete"]
+        if draw(st.booleans()):
+            lead.reverse()
+    n = draw(st.sampled_from([2, 1, 3, 4, 0, 5, 6, 3, 2]))
+    for j in range(max(n, len(lead))):
+        k = lead[j] if j < len(lead) else draw(st.sampled_from(kinds))
         e = {"op": k, "i": draw(st.integers(0, 30)), "dt": draw(DT)}
         if k in ("modify", "add", "ln"):
             e["content"] = draw(st.one_of(gen.small_contents(), gen.small_contents(), gen.contents(max_size=24)))
